@@ -792,6 +792,14 @@ class Vector():
 					if required_kind is target.kind:
 						# an instance of a subclass of the column kind (e.g. a named tuple in a tuple column)
 						continue
+					if (
+						(target.kind is complex and required_kind in (bool, int, float))
+						or (target.kind is float and required_kind in (bool, int))
+						or (target.kind is datetime and required_kind is date)
+					):
+						# ... or of a narrower kind (an int subclass in a float column): it belongs
+						# there, inference puts it there, and writing it back has to be accepted
+						continue
 					promotable = (
 						(target.kind is int and required_kind in (float, complex))
 						or (target.kind is float and required_kind is complex)
